@@ -6,6 +6,8 @@ import (
 	"fmt"
 	"os"
 	"strings"
+	"sync"
+	"time"
 
 	"github.com/btcsuite/btcd/database/ffldb"
 	"github.com/btcsuite/btcd/database/veriftreap"
@@ -65,6 +67,8 @@ func (P) exec(line string) string {
 		return execTreap(f[2], f[3:])
 	case "db":
 		return execDb(f[2:])
+	case "par":
+		return execPar(f[2:])
 	case "race":
 		return execRace(f[2:])
 	case "racebuild":
@@ -94,6 +98,24 @@ func (P) Generate(g *core.Gen) {
 		line, nt := genBlocks(g.R)
 		g.Case("blocks", nt, line)
 	}
+	// no hidden shared state: independent instances run concurrently, each must
+	// answer as it does alone
+	for i := g.N(3, 30); i > 0; i-- {
+		var subs []string
+		for k := 0; k < 9; k++ {
+			var line string
+			switch {
+			case k%3 == 2:
+				line, _ = genHistory(g.R, 12+g.R.Intn(20), false)
+			case k%2 == 0:
+				line, _ = genTreapLine(g.R, "imm", 30+g.R.Intn(60))
+			default:
+				line, _ = genTreapLine(g.R, "mut", 30+g.R.Intn(60))
+			}
+			subs = append(subs, strings.TrimPrefix(line, "C05 "))
+		}
+		g.Case("parallel-instances", true, "C05 par "+strings.Join(subs, " // "))
+	}
 	// schedules of readers against one writer: exploration only
 	for i := g.N(2, 20); i > 0; i-- {
 		g.Case("race-exploration", true, fmt.Sprintf("C05 race %d %d %d %d", g.R.Intn(1000), 2+g.R.Intn(4),
@@ -116,4 +138,40 @@ func (P) Generate(g *core.Gen) {
 	for i := g.N(3, 30); i > 0; i-- {
 		genFlushBoundary(g.R, emit)
 	}
+}
+
+// execPar runs the sub-lines (separated by "//") concurrently, each in its own
+// goroutine on its own instance, released together with staggered offsets.
+func execPar(args []string) string {
+	var subs [][]string
+	cur := []string{}
+	for _, a := range args {
+		if a == "//" {
+			subs = append(subs, cur)
+			cur = []string{}
+		} else {
+			cur = append(cur, a)
+		}
+	}
+	subs = append(subs, cur)
+	outs := make([]string, len(subs))
+	start := make(chan struct{})
+	var wg sync.WaitGroup
+	for i := range subs {
+		wg.Add(1)
+		go func(i int) {
+			defer wg.Done()
+			defer func() {
+				if r := recover(); r != nil {
+					outs[i] = "panic"
+				}
+			}()
+			<-start
+			time.Sleep(time.Duration(i*137) * time.Microsecond)
+			outs[i] = P{}.exec("C05 " + strings.Join(subs[i], " "))
+		}(i)
+	}
+	close(start)
+	wg.Wait()
+	return strings.Join(outs, " // ")
 }
